@@ -143,7 +143,7 @@ impl Report {
                 if o.name == name {
                     found = true;
                     // an exploration cut short by the check budget makes no coverage claim
-                    if o.cap_hit.as_deref().map_or(false, |c| c.starts_with("check budget")) {
+                    if o.cap_hit.as_deref().map_or(false, |c| c.starts_with("check budget")) || (o.cap_hit.is_some() && o.depth_completed <= 1) {
                         continue;
                     }
                     if o.stats.get(&counter) == 0 && o.viol_counts.is_empty() {
